@@ -34,6 +34,8 @@ def base_env():
     env = dict(os.environ)
     env["CARGO_NET_OFFLINE"] = "true"
     env["RUST_BACKTRACE"] = "0"
+    # no incremental caches: they take 2-3 GB per configuration and a change to glam recompiles the whole crate anyway
+    env["CARGO_INCREMENTAL"] = "0"
     env.pop("RUSTFLAGS", None)
     env.pop("CARGO_TARGET_DIR", None)
     return env
